@@ -83,6 +83,9 @@ macro_rules! family {
         $m!("BTreeMap<bool,i8>", MapBI, Shape::Map(Box::new(Shape::Bool), Box::new(Shape::Int { signed: true, bits: 8 })));
         $m!("BTreeMap<Kind,i8>", MapKI, Shape::Map(Box::new(kind_shape()), Box::new(Shape::Int { signed: true, bits: 8 })));
         $m!("BTreeMap<u64,bool>", MapU64, Shape::Map(Box::new(Shape::Int { signed: false, bits: 64 }), Box::new(Shape::Bool)));
+        $m!("BTreeMap<char,String>", MapCS, Shape::Map(Box::new(Shape::Char), Box::new(Shape::Str)));
+        $m!("BTreeMap<i8,char>", MapI8C, Shape::Map(Box::new(Shape::Int { signed: true, bits: 8 }), Box::new(Shape::Char)));
+        $m!("BTreeMap<i64,Vec<char>>", MapI64VC, Shape::Map(Box::new(Shape::Int { signed: true, bits: 64 }), Box::new(Shape::Seq(Box::new(Shape::Char)))));
         $m!("Plain", Plain, plain_shape());
         $m!("Defaults", Defaults, defaults_shape());
         $m!("Strict", Strict, Shape::Struct(vec![("p", Shape::Int { signed: false, bits: 16 }, false), ("q", Shape::Opt(Box::new(Shape::Str)), true)]));
@@ -232,6 +235,59 @@ pub fn run_c04(out: &mut Out, tier: &str, seed: u64) {
         cmp::<AdjacentB>(out, "AdjacentB", &text);
         let text = gen_text(&fb, &mut rng, mode, 0);
         cmp::<FlatB>(out, "FlatB", &text);
+    }
+    // every kind of payload behind the buffering containers, on every kind of JSON value
+    {
+        const VALS: &[&str] = &["null", "true", "false", "0", "1", "-1", "255", "256", "1.5", "-0.0", "1e2", "18446744073709551615", "-9223372036854775808", "18446744073709551616",
+            "\"\"", "\"a\"", "\"ab\"", "\"Alpha\"", "\"Unit\"", "\"\\n\"", "\"\\u00e9\"", "[]", "[1]", "[1,\"x\"]", "[null]", "[1,\"x\",2.5]", "{}", "{\"a\":1}", "{\"New\":3}",
+            "{\"a\":7,\"b\":\"s\"}", "{\"a\":7,\"b\":\"s\",\"c\":null}", "{\"Rec\":{\"a\":true,\"b\":null}}", "{\"Tup\":[1,\"x\"]}"];
+        macro_rules! payload {
+            ($name:expr, $p:ty) => {{
+                for (i, v) in VALS.iter().enumerate() {
+                    if per < 100 && (i + $name.len()) % 2 == 1 && *v != "null" {
+                        continue;
+                    }
+                    cmp::<UntaggedP<$p>>(out, concat!("UntaggedP<", $name, ">"), v);
+                    cmp::<Vec<UntaggedP<$p>>>(out, concat!("Vec<UntaggedP<", $name, ">>"), &format!("[{v},{v}]"));
+                    for t in [format!("{{\"t\":\"A\",\"m\":{v}}}"), format!("{{\"m\":{v},\"t\":\"A\"}}"), format!("{{\"t\":\"C\",\"m\":{v},\"k\":3}}"), format!("{{\"t\":\"C\"}}"),
+                        format!("{{\"t\":\"B\"}}"), if v.starts_with('{') && v.len() > 2 { format!("{{\"t\":\"B\",{}", &v[1..]) } else { format!("{{\"t\":\"B\",\"m\":{v}}}") }] {
+                        cmp::<InternalP<$p>>(out, concat!("InternalP<", $name, ">"), &t);
+                    }
+                    for t in [format!("{{\"t\":\"A\",\"c\":{v}}}"), format!("{{\"c\":{v},\"t\":\"A\"}}"), format!("{{\"t\":\"B\",\"c\":{{\"m\":{v}}}}}"), format!("{{\"c\":{{\"m\":{v}}},\"t\":\"B\"}}"),
+                        format!("{{\"c\":[{v},9],\"t\":\"C\"}}"), format!("{{\"t\":\"C\",\"c\":[{v},9]}}"), format!("{{\"t\":\"A\"}}"), format!("{{\"c\":{v}}}")] {
+                        cmp::<AdjacentP<$p>>(out, concat!("AdjacentP<", $name, ">"), &t);
+                    }
+                    for t in [format!("{{\"id\":1,\"m\":{v}}}"), format!("{{\"m\":{v},\"k\":null,\"id\":2}}"), format!("{{\"id\":3}}"), format!("{{\"id\":4,\"m\":{v},\"z\":{v}}}")] {
+                        cmp::<FlatP<$p>>(out, concat!("FlatP<", $name, ">"), &t);
+                    }
+                }
+            }};
+        }
+        payload!("()", ());
+        payload!("UnitS", UnitS);
+        payload!("PhantomData<u8>", std::marker::PhantomData<u8>);
+        payload!("Option<i32>", Option<i32>);
+        payload!("Option<()>", Option<()>);
+        payload!("Option<Option<bool>>", Option<Option<bool>>);
+        payload!("Newtype", Newtype);
+        payload!("bool", bool);
+        payload!("u8", u8);
+        payload!("i64", i64);
+        payload!("u64", u64);
+        payload!("i128", i128);
+        payload!("f32", f32);
+        payload!("f64", f64);
+        payload!("char", char);
+        payload!("String", String);
+        payload!("(u8,String)", (u8, String));
+        payload!("Vec<i32>", Vec<i32>);
+        payload!("Vec<()>", Vec<()>);
+        payload!("BTreeMap<String,i32>", BTreeMap<String, i32>);
+        payload!("Kind", Kind);
+        payload!("Ext", Ext);
+        payload!("Plain", Plain);
+        payload!("Box<TupleS>", Box<TupleS>);
+        payload!("ByteBuf", serde_bytes::ByteBuf);
     }
 }
 
